@@ -27,13 +27,16 @@ let run_impl_sched (c : wcfg) ops path (sched : int array) : child_end =
     let fd = Wr.c_open_rw path true in
     if fd < 0 then "OPENFAIL" else begin
       if Int64.compare c.prefix 0L > 0 then ignore (Wr.c_write_str fd (Wr.prefix_pattern (Int64.to_int c.prefix)));
+      (* with a pool the data blocks are written by the result-handler thread, in order; the sequence of write(2) calls is the same *)
+      let pool = if c.pool > 0 then Wr.c_pool_init c.pool else 0n in
       let w = Wr.c_writer_init_fd fd
           (c.comp, (c.level <> None), (match c.level with Some l -> l | None -> 0),
            (c.block_size <> None), (match c.block_size with Some b -> b | None -> 0),
-           (c.interval <> None), (match c.interval with Some i -> i | None -> 0), 0n) in
+           (c.interval <> None), (match c.interval with Some i -> i | None -> 0), pool) in
       c_set_sched sched;
       List.iter (fun (k, v) -> ignore (Wr.c_writer_add w k v)) ops;
       Wr.c_writer_destroy w;
+      if c.pool > 0 then Wr.c_pool_destroy pool;
       let calls = c_write_calls () in
       c_set_sched [||];
       Wr.c_close fd;
@@ -73,7 +76,7 @@ let run ~tier ~seed ~only acc =
   let idx = ref 0 in
   let want () = cur_index := !idx; (match only with None -> true | Some i -> i = !idx) in
   let base = { comp = 0; level = None; block_size = Some 1024; interval = Some 4; pool = 0; prefix = 0L } in
-  let small_cfgs = [ base; { base with comp = 1; prefix = 13L }; { base with comp = 2 } ] in
+  let small_cfgs = [ base; { base with comp = 1; prefix = 13L }; { base with comp = 2 }; { base with pool = 2 }; { base with comp = 2; pool = 1; prefix = 5L } ] in
   List.iteri (fun ci c ->
     let st = case_rng ~seed:(seed + 1000 * ci) ~engine ~index:0 in
     let ops = rentries_blocks st ~nkeys:(if ci = 0 then 12 else 7) ~vlen:300 in
